@@ -25,6 +25,7 @@ them with the real HMAC/SHA-256/RSA; the model is parametric in them:
   self now= keys=... user= host= tok=
   claims c=<iss>/<scope>/<aud>/<typ>/<sub>|nil t=<...>|nil
   conc kind= n= ms= seed= k=        (executed concurrently by the harness; the model answers ok)
+  pc park at=<get|set|mutate> <call> | pc release      (a call paused in front of a store operation)
   pc reset | create | remove | disable | enable | issue now= expiry= | setup now= claim=right|old|wrong|empty id=
 -/
 import PubModel.C16.Glue
@@ -167,9 +168,15 @@ def showRole : Option Role → String
       | some p => s!"{showBytesAsText p.code}/{p.valid}/{p.expire}/{b2s p.consumed}/{p.tried}"
     s!"d={b2s r.disabled} id={id} pc={pc}"
 
+/-- an API call that has been started and is waiting in front of `KV.Mutate` -/
+inductive Pending
+  | op (o : POp)
+  | issue (now ex : Int)
+
 structure DrvState where
   role : Option Role := none
   issued : Nat := 0
+  parked : Option Pending := none
 
 def codeOf (n : Nat) : Bytes := (toString n).toList.map (fun c => u8 c.toNat)
 
@@ -188,26 +195,63 @@ def step (st : DrvState) (line : String) : DrvState × String :=
   let hx := fun k => kvHex ws k
   match ws with
   | "pc" :: op :: rest =>
-    let run := fun (o : POp) =>
-      let (r, out) := pstep cfg st.role o
-      ({ st with role := r }, s!"{showPOut out} {showRole r}")
+    -- a call of the Roles API, parsed when it is started
+    let parseCall := fun (op : String) (rest : List String) => (
+      match op with
+      | "create" => some (Pending.op .create)
+      | "remove" => some (Pending.op .remove)
+      | "disable" => some (Pending.op .disable)
+      | "enable" => some (Pending.op .enable)
+      | "issue" =>
+        match kvInt rest "now", kvInt rest "expiry" with
+        | some now, some ex => some (Pending.issue now ex)
+        | _, _ => none
+      | "setup" =>
+        match kvInt rest "now", kv rest "claim", kvNat rest "id" with
+        | some now, some c, some id => some (Pending.op (.setup (claimOf st c) now id))
+        | _, _, _ => none
+      | _ => none : Option Pending)
+    -- the call takes effect atomically (`KV.Mutate`), at the moment it is executed
+    let exec := fun (st : DrvState) (p : Pending) => (
+      match p with
+      | .op o =>
+        let (r, out) := pstep cfg st.role o
+        ({ st with role := r }, out)
+      | .issue now ex =>
+        let (r, out) := pstep cfg st.role (.issue now (codeOf (st.issued + 1)) ex)
+        ({ st with role := r, issued := if out = .ok then st.issued + 1 else st.issued }, out)
+      : DrvState × POut)
     match op with
     | "reset" => ({}, "ok none")
-    | "create" => run .create
-    | "remove" => run .remove
-    | "disable" => run .disable
-    | "enable" => run .enable
-    | "issue" =>
-      match kvInt rest "now", kvInt rest "expiry" with
-      | some now, some ex =>
-        let (r, out) := pstep cfg st.role (.issue now (codeOf (st.issued + 1)) ex)
-        ({ role := r, issued := if out = .ok then st.issued + 1 else st.issued }, s!"{showPOut out} {showRole r}")
-      | _, _ => (st, "bad-op")
-    | "setup" =>
-      match kvInt rest "now", kv rest "claim", kvNat rest "id" with
-      | some now, some c, some id => run (.setup (claimOf st c) now id)
-      | _, _, _ => (st, "bad-op")
-    | _ => (st, "bad-op")
+    | "park" =>
+      -- `pc park at=<get|set|mutate> <call>`: the call runs until its first store operation of
+      -- that kind and waits there.  Every mutation of a role record is ONE `KV.Mutate`
+      -- (Gen fact `rolesMutateAtomic`), so a call never reaches a separate Get or Set: it
+      -- completes; in front of `Mutate` it has not touched the record yet.
+      match rest with
+      | at_ :: op' :: rest' =>
+        match st.parked, parseCall op' rest' with
+        | none, some p =>
+          let mutating := op' = "enable" || op' = "disable" || op' = "issue" || op' = "setup"
+          if at_ = "at=mutate" && mutating then
+            ({ st with parked := some p }, s!"parked {showRole st.role}")
+          else
+            let (st', out) := exec st p
+            (st', s!"done {showPOut out} {showRole st'.role}")
+        | _, _ => (st, "bad-op")
+      | _ => (st, "bad-op")
+    | "release" =>
+      match st.parked with
+      | none => (st, s!"none {showRole st.role}")
+      | some p =>
+        let (st', out) := exec { st with parked := none } p
+        (st', s!"released {showPOut out} {showRole st'.role}")
+    | _ =>
+      match parseCall op rest with
+      | some p =>
+        let (st', out) := exec st p
+        (st', s!"{showPOut out} {showRole st'.role}")
+      | none => (st, "bad-op")
   | op :: _ =>
     let out : String :=
       match op with
